@@ -470,9 +470,9 @@ def impl_add_examples(g):
         for i, (has_headers, bad) in enumerate(g[1]):
             headers = None
             if has_headers:
-                headers = {"X-Id": str(i), **({"X-Bad": "cafЖ"} if bad == 1 else {"X Bad\n": "v"} if bad == 2 else {})}
+                headers = {"X-Id": str(i), **({"X-Bad": "caf\u0416"} if bad == 1 else {"X-Bad": "a\nb"} if bad == 2 else {})}
             cases.append(op.Case(headers=headers, query={"id": str(i)}))
-        strategies = [st.just(c) for c in cases]
+        strategies = [st.builds(lambda c=c: c) for c in cases]
         op.get_strategies_from_examples = lambda **kw: strategies
     else:
         def boom(**kw):
@@ -545,7 +545,7 @@ class Plan:
         if kind == "int":
             return 100000 + self.n
         base = f"ex{self.n}"
-        return base + rng.choice(["", "", " sp", "&a=b", "é", "%41", "+p", "'q"])
+        return base + rng.choice(["", "", " sp", "&a=b", "é", "%41", "+p", "'q", "#f", "?x"])
 
     def body_value(self):
         rng = self.rng
@@ -706,16 +706,20 @@ def place_body_examples(plan, rng, version, allow_findings):
         schema = {key: branches}
     if mode == "allOf":
         branches = []
-        for i in range(rng.choice([1, 2, 3])):
+        for i in range(rng.choice([1, 2, 3]) if (version == 3 or allow_findings) else 1):
             v = plan.body_value()
-            branches.append({"example": v} if rng.random() < 0.6 else {"examples": [v]})
-            out.append(((), v, None))
+            if version == 3:
+                branches.append({"example": v} if rng.random() < 0.6 else {"examples": [v]})
+                out.append(((), v, None))
+            else:
+                branches.append({"example": v})
+                out.append(((), v, None if i == 0 else "allof_20_examples_lost"))
         schema = {"allOf": branches}
     if mode == "allOf_x_20":
         v1, v2 = plan.body_value(), plan.body_value()
         key = rng.choice(["x-example", "x-examples"])
         schema = {"allOf": [{key: v1 if key == "x-example" else [v1]}, {key: v2 if key == "x-example" else [v2]}]}
-        out += [((), v1, "allof_x_example_overwritten"), ((), v2, None)]
+        out += [((), v1, "allof_20_examples_lost"), ((), v2, None)]
     if mode == "props_in_branch":
         v1, v2 = plan.token(), plan.token()
         key = rng.choice(["allOf", "anyOf", "oneOf"])
@@ -746,7 +750,7 @@ def gen_document(rng, version, n_ops, allow_findings):
             kinds.append(("query", nm))
         for nm in rng.sample(["X-One", "X-Two"], rng.choice([0, 0, 1, 2])):
             kinds.append(("header", nm))
-        if rng.random() < 0.2:
+        if version == 3 and rng.random() < 0.2:  # OpenAPI 2.0 has no cookie location
             kinds.append(("cookie", "ck"))
         for loc, nm in kinds:
             p = {"name": nm, "in": loc}
@@ -759,6 +763,8 @@ def gen_document(rng, version, n_ops, allow_findings):
                 exp, r = place_param_examples(plan, rng, p, version, allow_findings and rng.random() < 0.15)
                 refs.update(r)
                 for v, region in exp:
+                    if loc == "path" and region is None and any(ch in str(v) for ch in "%?#/"):
+                        region = "path_example_not_encoded"  # explicit path values are put into the URL as they are
                     info["expect"].append({"loc": loc, "name": nm, "value": v, "region": region})
             else:
                 # no example: must be filled with schema-valid data when required
@@ -887,7 +893,7 @@ def example_sent(e, reqs):
                 return True
         elif e["loc"] == "path":
             seg = r["path"].rsplit("/", 1)[-1]
-            if urllib.parse.unquote_plus(seg) == wire(e["value"]) or urllib.parse.unquote(seg) == wire(e["value"]):
+            if seg == wire(e["value"]) or urllib.parse.unquote_plus(seg) == wire(e["value"]) or urllib.parse.unquote(seg) == wire(e["value"]):
                 return True
         elif e["loc"] == "body":
             if r["ctype"] != e["media_type"] or r["body"] is None:
